@@ -365,6 +365,18 @@ func (g *ExprGen) bool1(depth int) mt.Expr {
 	}
 	switch r.Intn(14) {
 	case 0, 1, 2:
+		if r.P(1, 4) {
+			// a quotient that need not be whole, compared with an integer: "numeric comparison" fixes the result
+			d := mt.I([]int64{2, 3, 4, 5, 7, 8, 10}[r.Intn(7)])
+			q := g.bin("/", g.int1(depth-1), d)
+			if r.P(1, 4) {
+				q = g.bin("/", g.intAtom(), g.bin("+", d, g.bin("*", g.intAtom(), g.intAtom())))
+			}
+			if r.Bool() {
+				return g.tick(g.bin(cmpOps[r.Intn(6)], q, g.int1(depth-1)))
+			}
+			return g.tick(g.bin(cmpOps[r.Intn(6)], g.int1(depth-1), q))
+		}
 		return g.tick(g.bin(cmpOps[r.Intn(6)], g.int1(depth-1), g.int1(depth-1)))
 	case 3:
 		return g.bin([]string{"==", "!="}[r.Intn(2)], g.str1(depth-1), g.str1(depth-1))
